@@ -284,6 +284,15 @@ def _fde_cases(ctx):
              seed=rng.randint(0, 10 ** 6), fdtype=rng.choice(["float64", "float64", "float32", "int64"]),
              sdtype=rng.choice(["float64", "float64", "float32", "int64"]))
         for _ in range(n)
+    ] + [
+        # exact boundary values: an event repeated later at exactly 1/2 (1/4) level after every oscillator has rung
+        # down, nothing that breaks the exact scaling (no detrend / window / filter / resampling): the largest cycle of
+        # the repeat lies exactly ON an amplitude level when nbins is even (a multiple of 4)
+        dict(resp=rng.choice(["absacce", "pvelo"]), LF=rng.randint(2, 4), N=0, nbins=rng.choice([8, 20, 300]),
+             maxcpu=rng.choice([2, 3]), pattern=rng.choice(["none", "reverse", "random"]), dup_freq=False,
+             seed=rng.randint(0, 10 ** 6), fdtype="float64", sdtype="float64", sigkind="repeat-scaled",
+             level=rng.choice([0.5, 0.5, 0.25]))
+        for _ in range(ctx.pick(4, 24))
     ]
 
 
@@ -291,6 +300,18 @@ def _run_fde(c, parallel):
     from pyyeti import fdepsd
 
     r = np.random.default_rng(c["seed"])
+    if c.get("sigkind") == "repeat-scaled":
+        burst = r.standard_normal(300)
+        gap = np.zeros(5000)
+        sig = np.concatenate((burst, gap, c["level"] * burst, gap))
+        freq = np.sort(r.uniform(20.0, 33.0, c["LF"]))  # sr / freq > ppc: no resampling
+        if parallel == "yes":
+            _set_delays(c["LF"], c["pattern"], c["seed"])
+        with warnings.catch_warnings():
+            warnings.simplefilter("ignore")
+            return fdepsd.fdepsd(sig, 400.0, freq, 15.0, resp=c["resp"], nbins=c["nbins"], parallel=parallel,
+                                 maxcpu=c["maxcpu"], verbose=False, rolloff="none", winends=None, detrend=False,
+                                 hpfilter=None, T0=sig.size / 400.0)
     sig = r.standard_normal(c["N"])
     freq = np.sort(r.uniform(5.0, 60.0, c["LF"]))
     if c.get("dup_freq") and c["LF"] >= 3:
